@@ -189,6 +189,8 @@ class Builder:
             M.shuffle_options(deck, self.rng)
         if self.rng.random() < 0.3:
             M.vary_largest_surface(deck, self.rng)
+        if self.rng.random() < 0.15:
+            M.add_unrelated_cards(deck, self.rng)
         return deck
 
 
